@@ -190,6 +190,25 @@ def run(ctx):
             degrees = ctx.pick([2, 4, 6] if idx in (1, 2) else [3, 5], [2, 3, 4, 5, 6, 8, 10])
             check_point(ctx, f"{name}:L{idx}", built[name], idx, degrees, ctx.pick(6, 60))
         guarded(ctx, f"{name}:L{idx}", one)
+    # history class: several systems whose mass ratios are all tiny or nearly equal, built in ONE process at the same point type and
+    # degree (a memo of built expansions keyed by a rounded mu, by names or by degree only hands a later system an earlier one's
+    # polynomial; the mismatch is O(dc_2 r^2), visible against the degree-6 remainder at the smaller radii)
+    def interleaved():
+        em = 0.012150585609624
+        group = [("sun-mars", None), ("sun-mercury", None), ("sun-earth", None), ("mu=3.0404234e-06", 3.0404234e-6),
+                 ("earth-moon", None), (f"mu={em * (1 + 3e-6)!r}", em * (1 + 3e-6))]
+        if not ctx.quick:
+            group += [("mars-deimos", None), ("mu=1e-07", 1e-7), ("mu=0.04", 0.04), (f"mu={0.04 * (1 - 2e-5)!r}", 0.04 * (1 - 2e-5))]
+        for name, m in group:
+            if name not in built:
+                built[name] = System.from_mu(m) if m is not None else System.from_bodies(*name.split("-"))
+        for idx in ctx.pick((1,), (1, 2, 3)):
+            for name, m in group:
+                check_point(ctx, f"{name}:L{idx} [several systems built]", built[name], idx, [6], ctx.pick(3, 12))
+                ctx.count("H:points examined with several nearly equal / all-tiny mass ratios built in one process")
+    if ctx.mine(len(work)):
+        guarded(ctx, "interleaved systems", interleaved)
+        ctx.require("H:points examined with several nearly equal / all-tiny mass ratios built in one process", 4)
     ctx.require("A':polynomial is the Taylor expansion of the exact Hamiltonian (canonical map derived independently)", 30 if ctx.nshards == 1 else 5)
     ctx.require("B':Hamilton equations of the polynomial are the CR3BP dynamics (canonical map derived independently)", 30 if ctx.nshards == 1 else 5)
     ctx.require("A':conclusive decay rate", 5 if ctx.nshards == 1 else 1)
